@@ -793,6 +793,13 @@ def rule_determinism_passthrough(ctx: Ctx) -> None:
                     n += 1
                     ctx.fail("sibling.determinism", m, node, f"{cname}.{name} tests the truthiness of the determinism setting; 0 is a valid setting",
                              func=f"{cname}.{name}", construct=f"{cname}.{name}: truthiness test of {det}")
+            prim = [c for c in calls_in(fn) if call_attr(c) in ("z_measurement_gate", "x_measurement_gate", "reset_z", "apply_measurement", "reset_qubit")]
+            if prim and not any(det in {x.id for x in ast.walk(a) if isinstance(x, ast.Name)} for c in prim for a in list(c.args) + [k.value for k in c.keywords]):
+                n += 1
+                ctx.fail("sibling.determinism", m, prim[0],
+                         f"{cname}.{name} receives `{det}` but calls `{short(prim[0], 60)}` without it: the measurement falls back to the primitive's default "
+                         f"('probabilistic'), so a forced outcome (0 or 1) is drawn at random on this path", func=f"{cname}.{name}",
+                         construct=f"{cname}.{name}: {det} not forwarded to {call_attr(prim[0])}")
             for c in calls_in(fn):
                 if call_attr(c) in ("z_measurement_gate", "x_measurement_gate", "reset_z", "remove_qubit", "partial_trace", "apply_measurement"):
                     args = list(c.args) + [k.value for k in c.keywords]
